@@ -23,7 +23,7 @@ package light
 //                = 4e-18; the factor 1.2 and the fact that coordinates of one draw are distinct
 //                (negative dependence: the statistic is stochastically smaller than the multinomial
 //                one) leave orders of magnitude of room for the approximation error of Pearson's
-//                statistic. About 80 such checks per run.
+//                statistic. About 60 such checks per run.
 //
 // A grossly biased source (half of the square, one quadrant, modulo bias of 20 %, a PRNG re-seeded
 // identically per call) fails these by a wide margin; a cryptographically weak but well spread
@@ -305,4 +305,45 @@ func TestVerifC03_ObserveUnverifiedSamples(t *testing.T) {
 		vk.Count("observation_unverified_sample_rejected", 1)
 	}
 	vk.Record("observe-unverified", []string{"observation"}, false, nil)
+}
+
+// TestVerifC03_WitnessRetryAfterNothing is a fixed regression witness (no generated input) of the
+// defect the machine found: the first check of a block is answered with nothing at all (nil slice
+// and an error — what CascadeGetter returns on every failure); the retry, and a retry after a
+// graceful restart, must ask for the same coordinates. Width 32 and 16 samples: a fresh draw
+// coincides with the first one with probability 1/C(1024,16) < 1e-34.
+func TestVerifC03_WitnessRetryAfterNothing(t *testing.T) {
+	defer vk.Flush()
+	os.Unsetenv("CELESTIA_OVERRIDE_AVAILABILITY_WINDOW")
+	for _, restart := range []bool{false, true} {
+		roots := c03SyntheticRoots(32)
+		hdr := c03Header(11, time.Now().Add(-time.Hour), roots)
+		rec := &c03Recorder{fn: func([]shwap.SampleCoords) ([]shwap.Sample, error) { return nil, errors.New("all getters failed") }}
+		ds := datastore.NewMapDatastore()
+		la := NewShareAvailability(rec, ds, nil)
+		if err := la.SharesAvailable(context.Background(), hdr); err == nil {
+			t.Fatalf("C03/whole-sample-set: SharesAvailable returned nil although the getter served nothing")
+		}
+		if restart {
+			if err := la.Close(context.Background()); err != nil {
+				t.Fatalf("VERIF-INFRA: Close: %v", err)
+			}
+			la = NewShareAvailability(rec, ds, nil)
+		}
+		if err := la.SharesAvailable(context.Background(), hdr); err == nil {
+			t.Fatalf("C03/whole-sample-set: SharesAvailable returned nil although the getter served nothing")
+		}
+		vk.Record(fmt.Sprintf("witness restart=%v", restart), []string{"witness"}, true, nil)
+		if len(rec.asked) != 2 {
+			t.Fatalf("C03/same-coordinates: expected two getter requests, got %d", len(rec.asked))
+		}
+		first, second := c03Sorted(rec.asked[0]), c03Sorted(rec.asked[1])
+		if c03Fmt(first) != c03Fmt(second) || len(first) != len(second) {
+			if dir := os.Getenv("VERIF_REPLAY_DIR"); dir != "" {
+				_ = os.WriteFile(filepath.Join(dir, "c03_witness.txt"), []byte(fmt.Sprintf("restart=%v\nfirst  %s\nsecond %s\n", restart, c03Fmt(first), c03Fmt(second))), 0o644)
+			}
+			t.Fatalf("VERIF-VIOLATION C03/same-coordinates (width 32, 16 samples, graceful restart in between: %v): the first check asked the getter for %s and got nothing; "+
+				"expected the retry to ask for the same coordinates, it asked for %s", restart, c03Fmt(first), c03Fmt(second))
+		}
+	}
 }
